@@ -421,9 +421,115 @@ def _resolve(call, owner_cls, classes, modfuncs, known):
     return None
 
 
+def renest_lifted(tree, modname, ref):
+    """a closure the reference knows as `F.g` that has been lifted out of F
+    (a staticmethod or a module-level function of another name, used by F
+    only): a copy is put back into F under its old name and F's references
+    to the lifted function are redirected to it"""
+    from .normalize import function_table
+    known = set(ref.get("functions", []))
+    table = function_table(tree, modname)
+    n = 0
+    for q, f in list(table.items()):
+        if q not in known:
+            continue
+        missing = [k for k in known if k.startswith(q + ".")
+                   and "." not in k[len(q) + 1:] and "#" not in k
+                   and k not in table]
+        if len(missing) != 1:
+            continue
+        gname = missing[0].rsplit(".", 1)[1]
+        # which unknown functions does F refer to
+        owner = None
+        parts = q[len(modname) + 1:].split(".")
+        cls = None
+        if len(parts) >= 2:
+            cls = next((c for c in tree.body if isinstance(c, ast.ClassDef)
+                        and c.name == parts[0]), None)
+        cands = []
+        for x in _walk_own(f):
+            h = None
+            if isinstance(x, ast.Attribute) and isinstance(
+                    x.value, ast.Name) and cls is not None and x.value.id in (
+                        "self", cls.name):
+                h = next((m for m in cls.body if isinstance(m, FUNC)
+                          and m.name == x.attr), None)
+                hq = f"{modname}.{cls.name}.{x.attr}"
+            elif isinstance(x, ast.Name) and isinstance(x.ctx, ast.Load):
+                h = next((m for m in tree.body if isinstance(m, FUNC)
+                          and m.name == x.id), None)
+                hq = f"{modname}.{x.id}"
+            if h is not None and hq not in known and h is not f and not any(
+                    h is c for c, _ in cands):
+                cands.append((h, hq))
+        if len(cands) != 1:
+            continue
+        h, hq = cands[0]
+        decos = _decorators(h)
+        in_class = cls is not None and h in cls.body
+        if any(d not in ("staticmethod",) for d in decos):
+            continue
+        args = _clone(h.args)
+        if in_class and "staticmethod" not in decos:
+            # a plain method: its `self` is F's `self`
+            if not args.args or not f.args.args or \
+                    args.args[0].arg != f.args.args[0].arg:
+                continue
+            args.args = args.args[1:]
+        # used by F only
+        inside = {id(x) for x in ast.walk(f)} | {id(x) for x in ast.walk(h)}
+        elsewhere = False
+        for x in ast.walk(tree):
+            if id(x) in inside:
+                continue
+            if (isinstance(x, ast.Attribute) and x.attr == h.name) or (
+                    isinstance(x, ast.Name) and x.id == h.name):
+                elsewhere = True
+        if elsewhere:
+            continue
+        if any(isinstance(x, ast.Name) and x.id == gname
+               for x in ast.walk(f)):
+            continue
+        g = type(h)(name=gname, args=args,
+                    body=[_clone(b) for b in h.body], decorator_list=[],
+                    returns=None, type_comment=None)
+        if hasattr(h, "type_params"):
+            g.type_params = []
+        ast.copy_location(g, f.body[0])
+
+        class R(ast.NodeTransformer):
+            def visit_FunctionDef(self, node):
+                return node if node is g else self.generic_visit(node)
+            visit_AsyncFunctionDef = visit_FunctionDef
+
+            def visit_Attribute(self, node):
+                self.generic_visit(node)
+                if in_class and node.attr == h.name and isinstance(
+                        node.value, ast.Name) and node.value.id in (
+                            "self", cls.name):
+                    return ast.copy_location(ast.Name(gname, ast.Load()),
+                                             node)
+                return node
+
+            def visit_Name(self, node):
+                if not in_class and node.id == h.name and isinstance(
+                        node.ctx, ast.Load):
+                    return ast.copy_location(ast.Name(gname, ast.Load()),
+                                             node)
+                return node
+        f.body = [R().visit(b) for b in f.body]
+        at = 1 if f.body and isinstance(f.body[0], ast.Expr) and isinstance(
+            f.body[0].value, ast.Constant) and isinstance(
+                f.body[0].value.value, str) else 0
+        f.body.insert(at, g)
+        ast.fix_missing_locations(f)
+        n += 1
+    return n
+
+
 def inline_helpers(tree, modname, ref, rounds=3):
     known = set(ref.get("functions", []))
-    total = 0
+    total = renest_lifted(tree, modname, ref)
     for _ in range(rounds):
         classes = {}
         modfuncs = {}
@@ -546,7 +652,19 @@ def _drop_identity_assignments(tree):
                                         for _, b in pairs
                                         for x in ast.walk(b) if isinstance(
                                             x, (ast.Name, ast.Attribute)))
-                        if indep and all(
+                        # stores into plain names have no effect of their
+                        # own: with values that read none of the names that
+                        # really change, the tuple assignment is the
+                        # sequence of its parts
+                        changed = {a.id for a, _ in pairs
+                                   if isinstance(a, ast.Name)}
+                        plain = len(changed) == len(pairs) and not any(
+                            isinstance(x, ast.Name) and x.id in changed
+                            for _, b in pairs for x in ast.walk(b)) and \
+                            not any(isinstance(x, (ast.NamedExpr, ast.Await,
+                                                   ast.Yield, ast.YieldFrom))
+                                    for _, b in pairs for x in ast.walk(b))
+                        if plain or indep and all(
                                 isinstance(b, (ast.Name, ast.Constant,
                                                ast.Attribute))
                                 for _, b in pairs):
@@ -617,6 +735,25 @@ def _single_exit(stmts, target):
         if not has_ret:
             out.append(st)
             continue
+        if isinstance(st, ast.Try) and not st.finalbody and not any(
+                isinstance(x, ast.Return) for b in st.body
+                for x in ast.walk(b)) and all(
+                    _ends(h.body) for h in st.handlers):
+            # every handler leaves: what follows the try runs only when
+            # nothing was raised - it is the try's else clause
+            els = _single_exit(list(st.orelse) + rest, target)
+            if els is None:
+                return None
+            hs = []
+            for h in st.handlers:
+                hb = _single_exit(h.body, target)
+                if hb is None:
+                    return None
+                hs.append(ast.ExceptHandler(type=h.type, name=h.name,
+                                            body=hb or [ast.Pass()]))
+            out.append(ast.Try(body=st.body, handlers=hs, orelse=els,
+                               finalbody=[]))
+            return out
         if not isinstance(st, ast.If):
             return None
         if _ends(st.body):
@@ -635,8 +772,9 @@ def _single_exit(stmts, target):
 
 
 def _loop_exit(stmts, target):
-    """`while True: A; return E` (the only return, last statement of the
-    loop body) -> `while True: A; target = E; break`"""
+    """`while True: ...; return E` (returns anywhere in the loop body but
+    not inside a nested loop, no `break`) -> each `return E` becomes
+    `target = E; break`"""
     if len(stmts) != 1 or not isinstance(stmts[0], ast.While) or not (
             isinstance(stmts[0].test, ast.Constant)
             and stmts[0].test.value is True) or stmts[0].orelse:
@@ -644,11 +782,33 @@ def _loop_exit(stmts, target):
     lp = stmts[0]
     rets = [x for x in ast.walk(lp) if isinstance(x, ast.Return)]
     brks = [x for x in ast.walk(lp) if isinstance(x, ast.Break)]
-    if len(rets) != 1 or brks or lp.body[-1] is not rets[0] or \
-            rets[0].value is None:
+    if not rets or brks or any(r.value is None for r in rets):
         return None
-    lp.body[-1:] = [ast.Assign(targets=[_clone(target)],
-                               value=rets[0].value), ast.Break()]
+    for x in ast.walk(lp):
+        if x is not lp and isinstance(x, (ast.While, ast.For, ast.AsyncFor)
+                                      + FUNC + (ast.Lambda,)):
+            if any(isinstance(y, ast.Return) for y in ast.walk(x)):
+                return None
+
+    def rep(lst):
+        out = []
+        for st in lst:
+            if isinstance(st, ast.Return):
+                out.append(ast.copy_location(ast.Assign(
+                    targets=[_clone(target)], value=st.value), st))
+                out.append(ast.copy_location(ast.Break(), st))
+                continue
+            for fld in ("body", "orelse", "finalbody"):
+                sub = getattr(st, fld, None)
+                if isinstance(sub, list) and sub and isinstance(
+                        sub[0], ast.stmt):
+                    setattr(st, fld, rep(sub))
+            if isinstance(st, ast.Try):
+                for h in st.handlers:
+                    h.body = rep(h.body)
+            out.append(st)
+        return out
+    lp.body = rep(lp.body)
     return [lp]
 
 
@@ -698,6 +858,46 @@ def _inline_properties(tree, modname, classes, known):
         for m in cls.body:
             if isinstance(m, FUNC) and m.name not in props:
                 m.body = [t.visit(s) for s in m.body]
+        # through another object (`self.packet.frame_size`): only where the
+        # name can mean nothing else in this module - defined once, as this
+        # property, never assigned - and the receiver is a plain chain
+        for pname, pbody in props.items():
+            defs = sum(1 for x in ast.walk(tree) if (
+                isinstance(x, FUNC + (ast.ClassDef,)) and x.name == pname)
+                or (isinstance(x, ast.Attribute) and x.attr == pname
+                    and isinstance(x.ctx, (ast.Store, ast.Del)))
+                or (isinstance(x, ast.Name) and x.id == pname and isinstance(
+                    x.ctx, ast.Store)))
+            if defs != 1:
+                continue
+
+            class U(ast.NodeTransformer):
+                def visit_Attribute(self, node):
+                    nonlocal n
+                    self.generic_visit(node)
+                    if not (isinstance(node.ctx, ast.Load)
+                            and node.attr == pname):
+                        return node
+                    recv = node.value
+                    chain = recv
+                    while isinstance(chain, ast.Attribute):
+                        chain = chain.value
+                    if not isinstance(chain, ast.Name) or (
+                            isinstance(recv, ast.Name)
+                            and recv.id == "self"):
+                        return node
+                    n += 1
+                    return ast.copy_location(_ParamSubst(
+                        {"self": recv}).visit(_clone(pbody)), node)
+            u = U()
+            for c in tree.body:
+                if isinstance(c, ast.ClassDef):
+                    for m in c.body:
+                        if isinstance(m, FUNC) and not (
+                                c is cls and m.name == pname):
+                            m.body = [u.visit(s_) for s_ in m.body]
+                elif isinstance(c, FUNC):
+                    c.body = [u.visit(s_) for s_ in c.body]
     return n
 
 
@@ -793,7 +993,154 @@ def _inline_in_function(func, owner, classes, modfuncs, known):
                 return pro + nb[:-1] + [st]
         return None
 
+    def bool_loop(st):
+        """`while [not] self.h(a): B` where h decides with `return True`
+        / `return False` (a try around one call, say): the loop becomes
+        `while True:` around h's body, each return replaced by what it
+        leads to - B and the next round, or leaving the loop"""
+        if not isinstance(st, ast.While) or st.orelse:
+            return None
+        test, neg = st.test, False
+        if isinstance(test, ast.UnaryOp) and isinstance(test.op, ast.Not):
+            test, neg = test.operand, True
+        r = helper_of(test)
+        if r is None:
+            return None
+        h, is_m = r
+        if isinstance(h, ast.AsyncFunctionDef) or _is_generator(h):
+            return None
+        pb = _prepare_body(h, test, is_m)
+        if pb is None:
+            return None
+        pro, body = pb
+        mine = {x.id for x in ast.walk(func) if isinstance(x, ast.Name)} | {
+            a.arg for a in ast.walk(func) if isinstance(a, ast.arg)}
+        theirs = {x.id for b in pro + body for x in ast.walk(b)
+                  if isinstance(x, ast.Name) and isinstance(x.ctx, ast.Store)}
+        if mine & theirs:
+            return None
+
+        def place(stmts, guarded):
+            out = []
+            for s_ in stmts:
+                if isinstance(s_, ast.Return):
+                    if guarded or not isinstance(
+                            s_.value, ast.Constant) or not isinstance(
+                                s_.value.value, bool):
+                        return None
+                    if s_.value.value != neg:
+                        out.extend(_clone(b) for b in st.body)
+                        out.append(ast.copy_location(ast.Continue(), s_))
+                    else:
+                        out.append(ast.copy_location(ast.Break(), s_))
+                    return out
+                if not any(isinstance(x, ast.Return) for x in ast.walk(s_)):
+                    out.append(s_)
+                    continue
+                if isinstance(s_, ast.If):
+                    a, b = place(s_.body, guarded), place(s_.orelse, guarded)
+                    if a is None or b is None:
+                        return None
+                    s_.body, s_.orelse = a or [ast.Pass()], b
+                    out.append(s_)
+                elif isinstance(s_, ast.Try) and not s_.finalbody:
+                    a = place(s_.body, True)
+                    o = place(s_.orelse, guarded)
+                    if a is None or o is None:
+                        return None
+                    s_.body, s_.orelse = a, o
+                    for hd in s_.handlers:
+                        hb = place(hd.body, guarded)
+                        if hb is None:
+                            return None
+                        hd.body = hb
+                    out.append(s_)
+                else:
+                    return None
+            return out
+        if not _ends(body):
+            return None
+        nb = place(body, False)
+        if nb is None:
+            return None
+        loop = ast.While(test=ast.Constant(value=True), body=pro + nb,
+                         orelse=[])
+        ast.copy_location(loop, st)
+        ast.fix_missing_locations(loop)
+        return [loop]
+
+    def bool_if(st):
+        """`if [not] self.h(a): A else: B` with h deciding by `return
+        True` / `return False`: h's body, every return replaced by the
+        branch it selects"""
+        if not isinstance(st, ast.If):
+            return None
+        test, neg = st.test, False
+        if isinstance(test, ast.UnaryOp) and isinstance(test.op, ast.Not):
+            test, neg = test.operand, True
+        r = helper_of(test)
+        if r is None:
+            return None
+        h, is_m = r
+        if isinstance(h, ast.AsyncFunctionDef) or _is_generator(h):
+            return None
+        pb = _prepare_body(h, test, is_m)
+        if pb is None:
+            return None
+        pro, body = pb
+        if not _ends(body) and not any(isinstance(b, ast.Try)
+                                       for b in body):
+            return None
+        rets = [x for b in body for x in ast.walk(b)
+                if isinstance(x, ast.Return)]
+        if not rets or not all(isinstance(x.value, ast.Constant)
+                               and isinstance(x.value.value, bool)
+                               for x in rets):
+            return None
+        mine = {x.id for x in ast.walk(func) if isinstance(x, ast.Name)} | {
+            a.arg for a in ast.walk(func) if isinstance(a, ast.arg)}
+        theirs = {x.id for b in pro + body for x in ast.walk(b)
+                  if isinstance(x, ast.Name) and isinstance(x.ctx, ast.Store)}
+        if mine & theirs:
+            return None
+        marker = ast.Name("__selected", ast.Store())
+        se = _single_exit(body, marker)
+        if se is None:
+            return None
+
+        def fill(stmts):
+            out = []
+            for s_ in stmts:
+                if isinstance(s_, ast.Assign) and s_.targets[0] is not None \
+                        and isinstance(s_.targets[0], ast.Name) and \
+                        s_.targets[0].id == "__selected":
+                    br = st.body if s_.value.value != neg else st.orelse
+                    out.extend(_clone(b) for b in br)
+                    continue
+                for fld in ("body", "orelse", "finalbody"):
+                    sub = getattr(s_, fld, None)
+                    if isinstance(sub, list) and sub and isinstance(
+                            sub[0], ast.stmt):
+                        setattr(s_, fld, fill(sub) or (
+                            [ast.Pass()] if fld == "body" else []))
+                if isinstance(s_, ast.Try):
+                    for hd in s_.handlers:
+                        hd.body = fill(hd.body) or [ast.Pass()]
+                out.append(s_)
+            return out
+        res = pro + fill(se)
+        for s_ in res:
+            ast.copy_location(s_, st)
+            ast.fix_missing_locations(s_)
+        return res or [ast.copy_location(ast.Pass(), st)]
+
     def stmt_inline(st):
+        rep = bool_loop(st)
+        if rep is not None:
+            return rep
+        rep = bool_if(st)
+        if rep is not None:
+            return rep
         # for T in helper(args): BODY   (generator helper)
         if isinstance(st, (ast.For,)) and not st.orelse:
             r = helper_of(st.iter)
@@ -1063,7 +1410,8 @@ def unroll_literal_loops(func, known_locals):
     def unroll(st):
         if not isinstance(st, ast.For) or st.orelse or not isinstance(
                 st.iter, (ast.Tuple, ast.List)) or not (
-                    1 <= len(st.iter.elts) <= 4):
+                    1 <= len(st.iter.elts) <= 4 or (
+                        len(st.body) == 1 and len(st.iter.elts) <= 16)):
             return None
         tnames = [x.id for x in ast.walk(st.target)
                   if isinstance(x, ast.Name)]
@@ -1093,7 +1441,47 @@ def unroll_literal_loops(func, known_locals):
             ast.fix_missing_locations(b)
         return out
     visit(func.body)
+    if n:
+        literal_attr_calls(func)
     return n
+
+
+def literal_attr_calls(tree):
+    """`getattr(x, 'name')` is `x.name`, `setattr(x, 'name', v)` is
+    `x.name = v` (plain identifiers; private names, which the class body
+    mangles, excepted)"""
+    def plain(a):
+        return isinstance(a, ast.Constant) and isinstance(a.value, str) \
+            and a.value.isidentifier() and not (
+                a.value.startswith("__") and not a.value.endswith("__"))
+
+    class T(ast.NodeTransformer):
+        def visit_Expr(self, node):
+            self.generic_visit(node)
+            c = node.value
+            if isinstance(c, ast.Call) and isinstance(c.func, ast.Name) \
+                    and c.func.id == "setattr" and len(c.args) == 3 \
+                    and not c.keywords and plain(c.args[1]):
+                t = ast.Attribute(value=c.args[0], attr=c.args[1].value,
+                                  ctx=ast.Store())
+                new = ast.Assign(targets=[t], value=c.args[2])
+                ast.copy_location(new, node)
+                ast.fix_missing_locations(new)
+                return new
+            return node
+
+        def visit_Call(self, node):
+            self.generic_visit(node)
+            if isinstance(node.func, ast.Name) and node.func.id == "getattr" \
+                    and len(node.args) == 2 and not node.keywords \
+                    and plain(node.args[1]):
+                new = ast.Attribute(value=node.args[0],
+                                    attr=node.args[1].value, ctx=ast.Load())
+                ast.copy_location(new, node)
+                ast.fix_missing_locations(new)
+                return new
+            return node
+    T().visit(tree)
 
 
 # ------------------------------------------------------------- temporaries
@@ -1238,12 +1626,25 @@ def inline_temporaries(func, known_locals):
                                    for y in ast.walk(h)) for l in loads):
                         continue
                 moved = False
+                # an attribute read is invalidated by a store to an
+                # attribute of the same name; an item read by any item
+                # store
+                v_attrs = {y.attr for y in ast.walk(v)
+                           if isinstance(y, ast.Attribute)}
+                v_items = any(isinstance(y, (ast.Subscript, ast.Starred))
+                              for y in ast.walk(v))
                 for c in crossing:
                     for y in ast.walk(c):
                         if isinstance(y, (ast.Await, ast.Yield,
-                                          ast.YieldFrom)) or (
-                                isinstance(y, (ast.Attribute, ast.Subscript))
-                                and isinstance(y.ctx, (ast.Store, ast.Del))):
+                                          ast.YieldFrom)):
+                            moved = True
+                        if isinstance(y, ast.Attribute) and isinstance(
+                                y.ctx, (ast.Store, ast.Del)) and (
+                                    y.attr in v_attrs or has_call):
+                            moved = True
+                        if isinstance(y, ast.Subscript) and isinstance(
+                                y.ctx, (ast.Store, ast.Del)) and (
+                                    v_items or has_call):
                             moved = True
                         # a value that calls something must not be moved
                         # over another call; plain reads may
@@ -1264,6 +1665,76 @@ def inline_temporaries(func, known_locals):
     if n:
         for s in func.body:
             ast.fix_missing_locations(s)
+    return n
+
+
+def coalesce_aliases(func, known_locals):
+    """`a = <expr>; ...; b = a` with `a` a single-assignment local the
+    reference does not know and `b` assigned only there: one object under
+    two names.  `a` is renamed to `b` and the alias statement goes (before
+    it `b` was unbound, so no use of `b` changes its meaning)."""
+    from .normalize import _params
+    n = 0
+    for _ in range(10):
+        done = False
+        stores = {}
+        nested = set()
+        for x in ast.walk(func):
+            if isinstance(x, FUNC + (ast.Lambda, ast.ClassDef)) and \
+                    x is not func:
+                for y in ast.walk(x):
+                    if isinstance(y, ast.Name):
+                        nested.add(y.id)
+            if isinstance(x, ast.Name) and isinstance(
+                    x.ctx, (ast.Store, ast.Del)):
+                stores.setdefault(x.id, []).append(x)
+            if isinstance(x, ast.ExceptHandler) and x.name:
+                stores.setdefault(x.name, []).append(x)
+            if isinstance(x, (ast.Global, ast.Nonlocal)):
+                nested.update(x.names)
+        params = set(_params(func))
+        for node in ast.walk(func):
+            for fld in ("body", "orelse", "finalbody"):
+                lst = getattr(node, fld, None)
+                if not isinstance(lst, list):
+                    continue
+                for i, st in enumerate(lst):
+                    if not (isinstance(st, ast.Assign) and len(
+                            st.targets) == 1 and isinstance(
+                                st.targets[0], ast.Name) and isinstance(
+                                    st.value, ast.Name)):
+                        continue
+                    b, a = st.targets[0].id, st.value.id
+                    if a == b or a in known_locals or a in params or \
+                            b in params or a in nested or b in nested:
+                        continue
+                    if len(stores.get(a, [])) != 1 or len(
+                            stores.get(b, [])) != 1:
+                        continue
+                    sa = stores[a][0]
+                    holder = None
+                    # `a` is bound by a plain assignment earlier in the
+                    # same block (so it is bound whenever the alias runs)
+                    for j in range(i):
+                        pj = lst[j]
+                        if isinstance(pj, ast.Assign) and len(
+                                pj.targets) == 1 and pj.targets[0] is sa:
+                            holder = j
+                    if holder is None:
+                        continue
+                    for x in ast.walk(func):
+                        if isinstance(x, ast.Name) and x.id == a:
+                            x.id = b
+                    del lst[i]
+                    n += 1
+                    done = True
+                    break
+                if done:
+                    break
+            if done:
+                break
+        if not done:
+            break
     return n
 
 
@@ -1319,9 +1790,29 @@ def inline_block_temporaries(func, known_locals):
                 # only the directly following simple statement may use it
                 if hit and j != i + 1:
                     ok = False
+                # ... simple: no other assignment of the name can run
+                # between this one and the use
+                if hit and any(st2 is not st and any(
+                        y is st2 for y in ast.walk(nxt))
+                        for _, _, st2 in sites):
+                    ok = False
+                if hit and not isinstance(nxt, (
+                        ast.Assign, ast.AugAssign, ast.AnnAssign, ast.Expr,
+                        ast.Return, ast.Raise, ast.Assert)):
+                    hd = {ast.If: "test", ast.While: "test",
+                          ast.For: "iter"}.get(type(nxt))
+                    head = getattr(nxt, hd) if hd else None
+                    if head is None or not all(any(
+                            y is l for y in ast.walk(head)) for l in hit) \
+                            or isinstance(nxt, ast.While):
+                        ok = False
                 for l in hit:
                     cover[id(l)] = st
         if not ok or len(cover) != len(loads):
+            continue
+        # an assignment that feeds nothing here feeds something elsewhere
+        if any(not any(cover[id(l)] is st for l in loads)
+               for _, _, st in sites):
             continue
         # a value assigned inside a loop may come round again: every read
         # inside that loop must then be fed by an assignment inside it
